@@ -12,6 +12,7 @@ A8  the overflow term of signed multiplication (computed on magnitudes) depends 
 A9  cross-reference: untyped constant sub-expressions are re-typed together with their top node (C05-S13)
 A10 the scanner bound of every suffixed number literal equals max() of its number type (token.rs): two tables that must agree
 A11 every per-type table of constants over the unsigned number types gives usize what it gives u32 (usize has 32 bits)
+A12 constrain_type recurses into the operands of unary / arithmetic / bitwise / shift operators (rows moved here from C05-S2)
 A7  cross-reference: the peephole rewrites through which every operator network is built keep the function (C04 O4 / O5 / O7 / O9 / O10)
 """
 from .. import mir
@@ -657,5 +658,17 @@ def rule_a11(ctx):
     return res
 
 
+def rule_a12(ctx):
+    """An operand of a number operator that shares the operator's type has to be re-typed with it (constrain_type recurses into it
+    on every path): otherwise `(65535 + 1) << n` as a u16 is a 32-bit sum cut down to 0 instead of an Overflow.  (These rows of the
+    recursion table were part of C05-S2 until the width-adjusting wrapper made them irrelevant for the circuit's shape.)"""
+    from . import C05
+    res = RuleResult("A12", "constrain_type reaches the operands of unary, arithmetic, bitwise and shift operators (they are computed in the operator's type)")
+    C05._recursion_table(ctx, res, "check::constrain_type", C05.S2_OPERATOR_TABLE, True)
+    for x in res.findings:
+        x.rule = "A12"
+    return res
+
+
 def run(ctx):
-    return ctx.run_rules([rule_a1, rule_a2, rule_a3, rule_a4, rule_a5, rule_a6, rule_a7, rule_a8, rule_a9, rule_a10, rule_a11])
+    return ctx.run_rules([rule_a1, rule_a2, rule_a3, rule_a4, rule_a5, rule_a6, rule_a7, rule_a8, rule_a9, rule_a10, rule_a11, rule_a12])
